@@ -208,7 +208,7 @@ def run(F, rep, tier, allfacts):
         cfg = CFG(f)
         wb = [(i, [describe(f, a, depth=12) for a in args]) for i, c, args, *_ in calls(f) if callee_matches(c, r"::write_user_register$")]
         jb = call_blocks(f, r"::jump$")
-        ok = len(wb) == 1 and bool(jb) and cfg.dominates(wb[0][0], jb[0]) and bool(re.search(r"saturating_add\(call:index\(.*RegId::PC\),.*Instruction::SIZE", wb[0][1][2]))
+        ok = len(wb) == 1 and bool(jb) and cfg.dominates(wb[0][0], jb[0]) and match_commuted(r"saturating_add\(call:index\(.*RegId::PC\),.*Instruction::SIZE", wb[0][1][2]) is not None
         rep.check(ok, "TAB-jump-ops", "JAL:return-address=pc+4-before-jump", "%s:%s" % (f["file"], f["line"]),
                   "JAL must store $pc + Instruction::SIZE through write_user_register before jumping; found %s" % wb)
 
